@@ -1,5 +1,6 @@
 import CMacVerif.Lemmas.RanluxStream
 import CMacVerif.Lemmas.RanluxSeed
+import CMacVerif.Lemmas.RanluxLcg
 /-!
 # C13 — the random stream is RANLUX (ranlxd2); same seed, same stream
 
@@ -100,5 +101,228 @@ theorem zero_not_excluded_by_invariant :
           ih (m - 1) (by omega)]
         simp
   rw [hs]
+
+/-! ## the double arithmetic is exact (justifies the integer model) -/
+
+/-- Every double operation of seeding, refill and draw produces an integer multiple of 2^-48
+of magnitude below 2^49 · 2^-48: whatever the rounding `R` does outside that range, as long as
+it is exact inside it (IEEE binary64 is exact up to 2^53), the generator started with `R` is in
+the same state after every number of draws and returns the same values as the unrounded one. -/
+theorem doubles_exact (R : Rnd) (hR : RExact R) (seed : Int) (n : Nat) :
+    after R (seedState R seed) n = after exact (seedState exact seed) n
+    ∧ draw R (seedState R seed) n = stream seed n := by
+  have hs := seedState_R R hR seed
+  have ha := after_R R hR _ (seed_inv seed) n
+  refine ⟨by rw [hs, ha], ?_⟩
+  unfold stream draw
+  rw [hs, ha, next_R R hR _ (state_bounded seed n)]
+
+/-- the same for a single refill from any well-formed state -/
+theorem doubles_exact_refill (R : Rnd) (hR : RExact R) (s : State) (h : Inv s) :
+    next R s = next exact s := next_R R hR s h
+
+/-! ## seeding -/
+
+/-- seed 0 is seed 1 -/
+theorem seed_zero_is_one (R : Rnd) : seedState R 0 = seedState R 1 := rfl
+
+theorem seed_zero_stream (n : Nat) : stream 0 n = stream 1 n := rfl
+
+/-- only the low 31 bits of the (non-zero) seed matter -/
+theorem seed_mod (a b : Int) (h : effSeed a = effSeed b) : seedState exact a = seedState exact b := by
+  have ha := seedState_x exact exact_RExact a
+  have hb := seedState_x exact exact_RExact b
+  have e : ∀ s, seedState exact s = { seedState exact s with x := (seedState exact s).x } :=
+    fun _ => rfl
+  rw [e a, e b, ha, hb, h]
+  rfl
+
+/-- the twelve state words after seeding are consecutive 48 bit groups of the complemented
+output of the shift register `b(n) = b(n-31) xor b(n-13)` started from the seed bits -/
+theorem seed_words (seed : Int) (p : Nat) (hp : p < 12) :
+    rd (seedState exact seed).x p = pre (effSeed seed) (48 * p) 48 :=
+  seedState_rd seed p hp
+
+/-- seeding is injective on `[1, 2^31)`: already the first state word determines the seed (its
+leading 31 bits are the complemented seed bits, least significant first) -/
+theorem seed_injective (a b : Int) (ha : 1 ≤ a) (ha' : a < 2147483648) (hb : 1 ≤ b)
+    (hb' : b < 2147483648)
+    (h : rd (seedState exact a).x 0 = rd (seedState exact b).x 0) : a = b := by
+  rw [seedState_rd a 0 (by omega), seedState_rd b 0 (by omega)] at h
+  have := word0_inj _ _ (effSeed_lt a) (effSeed_lt b) h
+  rw [effSeed_of_range a ha ha', effSeed_of_range b hb hb'] at this
+  omega
+
+theorem seed_injective_state (a b : Int) (ha : 1 ≤ a) (ha' : a < 2147483648) (hb : 1 ≤ b)
+    (hb' : b < 2147483648) (h : seedState exact a = seedState exact b) : a = b :=
+  seed_injective a b ha ha' hb hb' (by rw [h])
+
+/-! ## restart -/
+
+/-- a generator written to a restart file and read back is the same generator -/
+theorem restore_dump (s : State) (h : s.x.size = 12) : restore (dump s) = some s := by
+  obtain ⟨x, c, ir, jr, o, p⟩ := s
+  dsimp only at h
+  have hx : x = #[rd x 0, rd x 1, rd x 2, rd x 3, rd x 4, rd x 5, rd x 6, rd x 7, rd x 8,
+      rd x 9, rd x 10, rd x 11] := by
+    apply Array.ext (by simp [h])
+    intro i h1 h2
+    have h3 : i < 12 := by omega
+    rcases i with _ | _ | _ | _ | _ | _ | _ | _ | _ | _ | _ | _ | i <;>
+      first | (exfalso; omega) | (simp [rd, Array.getD, h])
+  simp only [dump, List.range, List.range.loop, List.map, List.cons_append, List.nil_append,
+    restore]
+  rw [← hx]
+
+/-- … in every reachable state, and the stream continues identically -/
+theorem restore_continues (seed : Int) (n : Nat) :
+    restore (dump (after exact (seedState exact seed) n))
+      = some (after exact (seedState exact seed) n) :=
+  restore_dump _ (state_bounded seed n).bnd.1
+
+theorem stream_after_restore (seed : Int) (n m : Nat) :
+    (restore (dump (after exact (seedState exact seed) n))).map (fun r => draw exact r m)
+      = some (stream seed (n + m)) := by
+  rw [restore_continues, Option.map_some]
+  congr 1
+  unfold stream draw
+  congr 2
+  induction m with
+  | zero => rfl
+  | succ m ih => rw [after, ih]; rfl
+
+/-! ## the stream is RANLUX -/
+
+/-- for every seed and every position: the `n`-th returned value is the textbook
+subtract-with-borrow sequence (base 2^48, lags 12 and 5, started from the seed words, no
+borrow) at index `397 * (n / 12 + 1) + n % 12`: luxury level 397, twelve values delivered per
+397, the first 397 skipped -/
+theorem stream_is_spec (seed : Int) (n : Nat) :
+    stream seed n = ranluxSpec (fun p => rd (seedState exact seed).x p) n :=
+  draw_spec _ (seedState_bnd seed) rfl rfl rfl rfl rfl n
+
+/-- same seed ⇒ same stream, by construction (the model is a function); stated for
+completeness: equal effective seeds give equal streams -/
+theorem same_seed_same_stream (a b : Int) (h : effSeed a = effSeed b) (n : Nat) :
+    stream a n = stream b n := by
+  unfold stream; rw [seed_mod a b h]
+
+/-! ## injectivity of the step; different seeds give different streams -/
+
+/-- The single step is NOT injective on raw states: an entry and the incoming carry are only
+seen through their sum, so two well-formed states that differ in (entry, carry) merge. -/
+theorem singleStep_not_injective :
+    ∃ s s' : State, Inv s ∧ Inv s' ∧ s ≠ s' ∧ singleStep s = singleStep s' := by
+  have hb : ∀ v : Int, 0 ≤ v → v < B → Bnd (wr (Array.replicate 12 (0 : Int)) 0 v) := by
+    intro v h0 h1
+    exact bnd_wr _ _ _ ⟨by simp, fun i _ => by simp [rd, Array.getD, B_val]⟩ h0 h1
+  refine ⟨⟨wr (Array.replicate 12 0) 0 5, 0, 0, 7, 0, 397⟩,
+          ⟨wr (Array.replicate 12 0) 0 4, 1, 0, 7, 0, 397⟩,
+          ⟨hb 5 (by omega) (by rw [B_val]; omega), Or.inl rfl, by decide, by decide, rfl, rfl⟩,
+          ⟨hb 4 (by omega) (by rw [B_val]; omega), Or.inr rfl, by decide, by decide, rfl, rfl⟩,
+          by decide, by decide⟩
+
+/-- It is injective as soon as the incoming carry is known (the step loses exactly the
+information "entry + carry" ↦ (entry, carry)). -/
+theorem singleStep_injective_same_carry (s s' : State)
+    (hs : s.x.size = 12) (hs' : s'.x.size = 12) (hi : s.ir < 12) (hi' : s'.ir < 12)
+    (hj : s.jr = (s.ir + 7) % 12) (hj' : s'.jr = (s'.ir + 7) % 12)
+    (hc : s.carry = s'.carry) (h : singleStep s = singleStep s') : s = s' := by
+  obtain ⟨x, c, ir, jr, o, p⟩ := s
+  obtain ⟨x', c', ir', jr', o', p'⟩ := s'
+  dsimp only at hs hs' hi hi' hj hj' hc
+  subst hc
+  have e1 : (ir + 1) % 12 = (ir' + 1) % 12 := congrArg State.ir h
+  have e2 : o = o' := congrArg State.irOld h
+  have e3 : p = p' := congrArg State.pr h
+  have ei : ir = ir' := by omega
+  subst ei e2 e3
+  have ej : jr = jr' := by omega
+  subst ej
+  have hx : (sb exact x c ir jr).1 = (sb exact x' c ir jr).1 := congrArg State.x h
+  have hcc : (sb exact x c ir jr).2 = (sb exact x' c ir jr).2 := congrArg State.carry h
+  have hne : ir ≠ jr := by omega
+  have hsz : ir < x.size := by omega
+  have hsz' : ir < x'.size := by omega
+  have key : ∀ q, q < 12 → rd x q = rd x' q := by
+    -- unchanged positions first
+    have other : ∀ q, q ≠ ir → rd x q = rd x' q := by
+      intro q hq
+      have := congrArg (fun a => rd a q) hx
+      rw [sb_exact, sb_exact] at this
+      split at this <;> split at this <;>
+        simpa [rd_wr_ne _ _ _ _ (Ne.symm hq)] using this
+    intro q _
+    by_cases hq : q = ir
+    · subst hq
+      have hjr := other jr (Ne.symm hne)
+      have v := congrArg (fun a => rd a q) hx
+      rw [sb_exact, sb_exact] at v hcc
+      rw [hjr] at v hcc
+      by_cases a : rd x' jr - rd x q - c < 0 <;> by_cases b : rd x' jr - rd x' q - c < 0
+      · simp only [a, b, if_true, rd_wr_eq _ _ _ hsz, rd_wr_eq _ _ _ hsz'] at v; omega
+      · simp only [a, b, if_true, if_false] at hcc; omega
+      · simp only [a, b, if_true, if_false] at hcc; omega
+      · simp only [a, b, if_false, rd_wr_eq _ _ _ hsz, rd_wr_eq _ _ _ hsz'] at v; omega
+    · exact other q hq
+  have : x = x' := arr_ext x x' hs hs' key
+  subst this
+  rfl
+
+/-- What replaces injectivity: the recurrence is a linear congruential generator.  The residue
+`Zf` of a window and its borrow satisfies `Zf t = b^n · Zf (t+n)  (mod b^12 − b^5 + 1)` — `n`
+steps multiply the residue by the (invertible) `b^-n`, so no information modulo `MM` is lost;
+states with the same residue merge (`singleStep_not_injective`). -/
+theorem swb_is_lcg (x0 : Nat → Int) (t n : Nat) :
+    ∃ q : Int, Zf x0 t = B ^ n * Zf x0 (t + n) + MM * q := Z_iter x0 t n
+
+/-- Different seeds give different streams: for any two seeds whose effective 31 bit seeds differ the
+streams differ within the first 24 draws.  (Proof: equal first two delivered windows force
+equal borrows because `b^397 ≢ ±1 (mod MM)`; then the seed arrays have the same residue, both
+lie in `[0, MM)`, the only other array with that residue would need a zero first word, which
+the shift register cannot produce; so the first words agree and `seed_injective` applies.) -/
+theorem streams_differ_eff (a b : Int) (hab : effSeed a ≠ effSeed b) :
+    ∃ n, n < 24 ∧ stream a n ≠ stream b n := by
+  by_contra hne
+  have heq : ∀ n, n < 24 → stream a n = stream b n := by
+    intro n hn
+    by_contra h
+    exact hne ⟨n, hn, h⟩
+  apply hab
+  apply word0_inj _ _ (effSeed_lt a) (effSeed_lt b)
+  rw [← seedState_rd a 0 (by omega), ← seedState_rd b 0 (by omega)]
+  have bnd : ∀ s : Int, ∀ k, k < 12 →
+      0 ≤ rd (seedState exact s).x k ∧ rd (seedState exact s).x k < B :=
+    fun s k hk => (seedState_bnd s).2 k hk
+  have nz : ∀ s : Int, rd (seedState exact s).x 0 ≠ 0 := by
+    intro s; rw [seedState_rd s 0 (by omega)]; exact pre48_ne_zero _ _
+  refine first_word_eq (fun p => rd (seedState exact a).x p) (fun p => rd (seedState exact b).x p)
+    (bnd a) (bnd b) (nz a) (nz b) ?_ ?_
+  · intro j hj
+    have := heq j (by omega)
+    rw [stream_is_spec, stream_is_spec, ranluxSpec, ranluxSpec] at this
+    rw [show 397 * (j / 12 + 1) + j % 12 = 397 + j by omega] at this
+    exact this
+  · intro j hj
+    have := heq (12 + j) (by omega)
+    rw [stream_is_spec, stream_is_spec, ranluxSpec, ranluxSpec] at this
+    rw [show 397 * ((12 + j) / 12 + 1) + (12 + j) % 12 = 794 + j by omega] at this
+    exact this
+
+/-- … in particular for any two different seeds in `[1, 2^31)` -/
+theorem streams_differ (a b : Int) (ha : 1 ≤ a) (ha' : a < 2147483648) (hb : 1 ≤ b)
+    (hb' : b < 2147483648) (hab : a ≠ b) : ∃ n, n < 24 ∧ stream a n ≠ stream b n := by
+  apply streams_differ_eff
+  rw [effSeed_of_range a ha ha', effSeed_of_range b hb hb']
+  omega
+
+/-! ## non-vacuity -/
+
+example : RExact exact := exact_RExact
+example : ∃ s, Inv s ∧ s.ir = s.irOld :=
+  ⟨{ seedState exact 42 with ir := 0 }, ⟨(seed_inv 42).bnd, (seed_inv 42).cok, by decide,
+    by decide, rfl, rfl⟩, rfl⟩
+example : ∃ a b : Int, 1 ≤ a ∧ a < 2147483648 ∧ 1 ≤ b ∧ b < 2147483648 ∧ a ≠ b :=
+  ⟨1, 2, by decide, by decide, by decide, by decide, by decide⟩
 
 end CMacVerif.Ranlux
